@@ -6,6 +6,7 @@ import (
 	"sync"
 	"testing"
 
+	"github.com/creachadair/jrpc2"
 	"github.com/creachadair/jrpc2/handler"
 	"pgregory.net/rapid"
 
@@ -16,12 +17,17 @@ import (
 // Concurrency > 1 does exactly that): each invocation must see the argument
 // decoded from its own params.
 type Conc struct {
-	Shape   string `json:"shape"`  // struct | slice | map | ptr
+	Shape   string `json:"shape"`  // struct | slice | map | ptr | noarg | noargerr | request
 	Strict  string `json:"strict"` // "", "true", "false"
 	Array   string `json:"array"`  // "", "true", "false"
 	Workers int    `json:"workers"`
 	Calls   int    `json:"calls"`
 }
+
+type concKey struct{}
+
+// tok is the number the harness put into the context of this very invocation.
+func tok(ctx context.Context) any { return ctx.Value(concKey{}) }
 
 type concArg struct {
 	A int    `json:"a"`
@@ -31,29 +37,46 @@ type concArg struct {
 func runConc(_ *testing.T, c Conc) engine.Verdict {
 	var fn any
 	var params func(n int) string
+	noParams, viaErr := false, false
 	switch c.Shape {
 	case "struct":
-		fn = func(_ context.Context, v concArg) (string, error) { return fmt.Sprintf("%d/%s", v.A, v.B), nil }
+		fn = func(ctx context.Context, v concArg) (string, error) { return fmt.Sprintf("%d/%s@%v", v.A, v.B, tok(ctx)), nil }
 		params = func(n int) string { return fmt.Sprintf(`{"a":%d,"b":"s%d"}`, n, n) }
 	case "ptr":
-		fn = func(_ context.Context, v *concArg) (string, error) {
+		fn = func(ctx context.Context, v *concArg) (string, error) {
 			if v == nil {
 				return "nil", nil
 			}
-			return fmt.Sprintf("%d/%s", v.A, v.B), nil
+			return fmt.Sprintf("%d/%s@%v", v.A, v.B, tok(ctx)), nil
 		}
 		params = func(n int) string { return fmt.Sprintf(`{"a":%d,"b":"s%d"}`, n, n) }
 	case "slice":
-		fn = func(_ context.Context, v []int) (string, error) {
+		fn = func(ctx context.Context, v []int) (string, error) {
 			if len(v) != 2 {
 				return fmt.Sprintf("a slice of %d elements", len(v)), nil
 			}
-			return fmt.Sprintf("%d/s%d", v[0], v[1]), nil
+			return fmt.Sprintf("%d/s%d@%v", v[0], v[1], tok(ctx)), nil
 		}
 		params = func(n int) string { return fmt.Sprintf(`[%d,%d]`, n, n) }
+	case "noarg":
+		// no request parameters: the context is all an invocation gets
+		fn = func(ctx context.Context) (string, error) { return fmt.Sprintf("%v/s%v@%v", tok(ctx), tok(ctx), tok(ctx)), nil }
+		noParams = true
+	case "noargerr":
+		fn = func(ctx context.Context) error { return fmt.Errorf("%v/s%v@%v", tok(ctx), tok(ctx), tok(ctx)) }
+		noParams, viaErr = true, true
+	case "request":
+		fn = func(ctx context.Context, req *jrpc2.Request) (string, error) {
+			var v concArg
+			if err := req.UnmarshalParams(&v); err != nil {
+				return "", err
+			}
+			return fmt.Sprintf("%d/%s@%v", v.A, v.B, tok(ctx)), nil
+		}
+		params = func(n int) string { return fmt.Sprintf(`{"a":%d,"b":"s%d"}`, n, n) }
 	default:
-		fn = func(_ context.Context, v map[string]int) (string, error) {
-			return fmt.Sprintf("%d/s%d", v["a"], v["b"]), nil
+		fn = func(ctx context.Context, v map[string]int) (string, error) {
+			return fmt.Sprintf("%d/s%d@%v", v["a"], v["b"], tok(ctx)), nil
 		}
 		params = func(n int) string { return fmt.Sprintf(`{"a":%d,"b":%d}`, n, n) }
 	}
@@ -77,14 +100,20 @@ func runConc(_ *testing.T, c Conc) engine.Verdict {
 			defer wg.Done()
 			for i := 0; i < c.Calls; i++ {
 				n := w*100000 + i
-				p := params(n)
-				req := makeRequest(&p)
-				res, err := h(context.Background(), req)
-				want := fmt.Sprintf("%d/s%d", n, n)
+				p, req := "(none)", makeRequest(nil)
+				if !noParams {
+					p = params(n)
+					req = makeRequest(&p)
+				}
+				res, err := h(context.WithValue(context.Background(), concKey{}, n), req)
+				want := fmt.Sprintf("%d/s%d@%d", n, n, n)
+				if viaErr && err != nil {
+					res, err = err.Error(), nil
+				}
 				if err != nil || res != want {
 					mu.Lock()
 					if bad == "" {
-						bad = fmt.Sprintf("params %s: the function's answer is %v (err %v), want %q", p, res, err, want)
+						bad = fmt.Sprintf("params %s, context value %d: the function's answer (argument@context value) is %v (err %v), want %q", p, n, res, err, want)
 					}
 					mu.Unlock()
 					return
@@ -101,15 +130,15 @@ func runConc(_ *testing.T, c Conc) engine.Verdict {
 
 func genConc(t *rapid.T) Conc {
 	return Conc{
-		Shape:   rapid.SampledFrom([]string{"struct", "ptr", "slice", "map"}).Draw(t, "shape"),
+		Shape:   rapid.SampledFrom([]string{"struct", "ptr", "slice", "map", "noarg", "noargerr", "request"}).Draw(t, "shape"),
 		Strict:  rapid.SampledFrom([]string{"", "true", "true", "false"}).Draw(t, "strict"),
 		Array:   rapid.SampledFrom([]string{"", "true", "false", "false"}).Draw(t, "array"),
 		Workers: rapid.IntRange(2, 8).Draw(t, "workers"),
-		Calls:   rapid.IntRange(20, 300).Draw(t, "calls"),
+		Calls:   rapid.IntRange(20, 3000).Draw(t, "calls"),
 	}
 }
 
 func init() {
 	parts = append(parts, engine.Part[Conc]{Name: "concurrent", Run: runConc, Gen: genConc,
-		Rule: "one handler made by Check/Wrap (struct, pointer, slice and map parameters; SetStrict x AllowArray) invoked by 2-8 goroutines at once with distinct params, 20-300 calls each: every invocation's function must answer from the argument decoded from its own params; non-trivial = at least two goroutines; distinct = the case"})
+		Rule: "one handler made by Check/Wrap (struct, pointer, slice and map parameters; SetStrict x AllowArray; and handlers without request parameters or taking the *Request) invoked by 2-8 goroutines at once with distinct params and a distinct context value, 20-3000 calls each: every invocation's function must answer from the argument decoded from its own params and from its own context; non-trivial = at least two goroutines; distinct = the case"})
 }
